@@ -877,8 +877,10 @@ def r16_8(rep: Report, idx: Index) -> set[str]:
     for n in ast.walk(vf.node):
         if isinstance(n, ast.If) and any(isinstance(b, ast.Raise) for b in n.body):
             t = norm(n.test)
-            if t in ('drm not in ALL_DRM_NAMES', 'drm not in DrmSystem.values()'):
-                # must dominate the append of that drm: same loop body, before the append
+            m_ = re.fullmatch(r'(\w+) not in (ALL_DRM_NAMES|DrmSystem\.values\(\))', t)
+            # the name that is tested is the one that goes into the result (first member of the pair)
+            if m_ and any(isinstance(tp, ast.Tuple) and tp.elts and isinstance(tp.elts[0], ast.Name)
+                          and tp.elts[0].id == m_.group(1) and isinstance(tp.ctx, ast.Load) for tp in ast.walk(vf.node)):
                 validates = True
     sysm = idx.by_rel.get('dashlive/drm/system.py')
     names: set[str] = set()
